@@ -1234,14 +1234,109 @@ def _ser_struct_triggers(s):
 _ser_struct_fields.triggers = _ser_struct_triggers
 
 
+def NATIVE_DEFAULT(t):
+    """Statement: structure fields omitted from the value are encoded as zero / empty / first variant (independent oracle)."""
+    n = type(t).__name__
+    if n == "BooleanType":
+        return False
+    if n in ("SignedIntegerType", "UnsignedIntegerType", "ByteType", "UTF8Type"):
+        return 0
+    if n == "FloatType":
+        return 0.0
+    if n == "VoidType":
+        return None
+    if n == "FixedLengthArrayType":
+        return [NATIVE_DEFAULT(t.element_type)] * t.capacity
+    if n == "VariableLengthArrayType":
+        en = type(t.element_type).__name__
+        return "" if en == "UTF8Type" else b"" if en == "ByteType" else []
+    if n == "StructureType":
+        return {f.name: NATIVE_DEFAULT(f.data_type) for f in t.fields if type(f).__name__ != "PaddingField"}
+    if n == "UnionType":
+        return {t.fields[0].name: NATIVE_DEFAULT(t.fields[0].data_type)}
+    if n == "DelimitedType":
+        return NATIVE_DEFAULT(t.inner_type)
+    raise ValueError(n)
+
+
+def _same_value(a, b):
+    """== with the types compared too (False is not 0, 0 is not 0.0, '' is not b'')"""
+    if type(a) is not type(b):
+        return False
+    if isinstance(a, dict):
+        return list(a.keys()) == list(b.keys()) and all(_same_value(a[k], b[k]) for k in a)
+    if isinstance(a, list):
+        return len(a) == len(b) and all(_same_value(x, y) for x, y in zip(a, b))
+    return a == b
+
+
+def DEFAULT_IS(result, t):
+    """the result is the default value of the type, as far as each reading can say:
+       native: the whole value (incl. key order, element types); SMT: by class - the scalar defaults, the empty str / bytes /
+       list, the list length of a fixed array; that structures / unions give a dict"""
+    if not smt():
+        return _same_value(result, NATIVE_DEFAULT(t))
+    r = result
+    out = []
+
+    def case(cond, claim):
+        out.append(IMPLIES(cond, claim))
+
+    if isinstance(r, DynV):
+        tg = lambda *k: dm.tag_in(r.term, k)
+        case(ISINST(t, "BooleanType"), AND(tg(dm.T_BOOL), dm.ival_f(r.term) == 0))
+        case(ISINST(t, "IntegerType"), AND(tg(dm.T_INT), dm.ival_f(r.term) == 0))
+        case(ISINST(t, "FloatType"), tg(dm.T_FLOAT))
+        case(ISINST(t, "VoidType"), tg(dm.T_NONE))
+        case(ISINST(t, "FixedLengthArrayType"), lambda: AND(tg(dm.T_LIST), dm.len_f(r.term) == AS(t, ARRAY)._capacity))
+        case(ISINST(t, "VariableLengthArrayType"), lambda: AND(
+            dm.len_f(r.term) == 0, ITE(ISINST(ELEM(t), "UTF8Type"), tg(dm.T_STR), ITE(ISINST(ELEM(t), "ByteType"), tg(dm.T_BYTES),
+                                                                                       tg(dm.T_LIST)))))
+        case(ISINST(t, "StructureType", "UnionType"), tg(dm.T_DICT))
+        return AND(*out)
+    # the function under verification: the result is an engine value
+    from pyvc import values as _V
+
+    is_false = r is False
+    is_zero = isinstance(r, int) and not isinstance(r, bool) and r == 0
+    is_fzero = isinstance(r, _V.FloatV) and r.value == 0.0
+    is_none = r is None
+    is_list = isinstance(r, (_V.PyList, _V.SymSeq))
+    is_dict = isinstance(r, (_V.PyDict, _V.SymMap))
+    is_empty_str = isinstance(r, str) and r == ""
+    is_empty_bytes = isinstance(r, _V.BytesV) and r.concrete == b""
+    is_empty_list = isinstance(r, _V.PyList) and not r.items
+    case(ISINST(t, "BooleanType"), is_false)
+    case(ISINST(t, "IntegerType"), is_zero)
+    case(ISINST(t, "FloatType"), is_fzero)
+    case(ISINST(t, "VoidType"), is_none)
+    case(ISINST(t, "FixedLengthArrayType"), lambda: AND(is_list, LEN(r) == AS(t, ARRAY)._capacity if is_list else False))
+    case(ISINST(t, "VariableLengthArrayType"), lambda: ITE(ISINST(ELEM(t), "UTF8Type"), is_empty_str,
+                                                           ITE(ISINST(ELEM(t), "ByteType"), is_empty_bytes, is_empty_list)))
+    case(ISINST(t, "StructureType", "UnionType"), is_dict)
+    return AND(*out)
+
+
 @contract(SD + "_default_value", props=["C06"])
 class _DefaultValue:
-    """value used for a structure field that the input dict omits (interface used by _serialize_composite)"""
+    """value used for a structure field that the input dict omits"""
     params = dict(schema=ObjOf(SERIALIZABLE))
     returns = Dyn
-    verify = False
-    assumed = "used at the call site in _serialize_composite; not yet verified (no claim about the value is used there)"
-    raises_only_if = {"ValueError": lambda s: ISINST(s.schema, "ServiceType")}
+    raises_here = {"ValueError": lambda s: NOT(ISINST(s.schema, "PrimitiveType", "VoidType", "ArrayType", "StructureType",
+                                                        "UnionType", "DelimitedType"))}
+    raises_only_if = {"ValueError": lambda s: True}
+
+    def post(s):
+        return {"default-by-class": DEFAULT_IS(s.result, s.schema),
+                "serializable-class": ISINST(s.schema, "PrimitiveType", "VoidType", "ArrayType", "StructureType",
+                                             "UnionType", "DelimitedType")}
+
+
+@loop_invariant(SD + "_default_value", loop=0)
+def _default_struct_loop(s):
+    # the dict of field defaults is built key by key; its contents are not tracked by the engine (the value level is
+    # covered by the native reading of the contract)
+    return {}
 
 
 @contract(SD + "_normalize_relaxed_value", props=["C06"])
@@ -1710,6 +1805,14 @@ def _native_A_of(t):
     return _native_A(t)
 
 
+def _build_default(d):
+    from pydsdl import _serdes
+
+    t = _mk_any_type(d["type"])
+    return (lambda: _serdes._default_value(t)), {"schema": t}
+
+
+NATIVE.add(SD + "_default_value", _gen_ser, _build_default)
 NATIVE.add(SD + "_serialize_array", _gen_ser, _build_ser("array"))
 NATIVE.add(SD + "_serialize_composite", _gen_ser, _build_ser("composite"))
 NATIVE.add(SD + "_serialize_element", _gen_ser, _build_ser("element"))
@@ -1892,6 +1995,72 @@ def _bounded_codec(eng, tier, seed):
                     if cw.bit_length_set != cr.bit_length_set or not ok:
                         bad("delimited-evolution", "writer revision %d, reader revision %d, container %s" % (i, j, cn),
                             {"value": repr(v), "back": repr(back)})
+    # relaxed input forms (positional structures, bare value for single-field structures) encode to the same bytes as the
+    # explicit dict form; normalisation is the identity on the explicit form and idempotent; too many positional values
+    # are rejected with ValueError; omitted structure fields encode like their defaults (zero / empty / first variant)
+    stats["relaxed_form_checks"] = 0
+
+    def relax(t, v, how):
+        if isinstance(t, S.DelimitedType):
+            return relax(t.inner_type, v, how)
+        if isinstance(t, S.StructureType) and isinstance(v, dict):
+            fs = t.fields_except_padding
+            vals = [relax(f.data_type, v[f.name], how) for f in fs]
+            if len(fs) == 1:
+                # single-field structures: the bare value (a list `[x]` would be taken as the bare value too, so the
+                # positional form does not exist for them); a dict-valued field keeps the explicit form
+                return vals[0] if (how % 2 == 0 and not isinstance(vals[0], dict)) else {fs[0].name: vals[0]}
+            return list(vals) if how % 3 else tuple(vals)
+        if isinstance(t, S.UnionType) and isinstance(v, dict):
+            (k, x), = v.items()
+            ft = [f.data_type for f in t.fields if f.name == k][0]
+            return {k: relax(ft, x, how)}
+        if isinstance(t, S.ArrayType) and isinstance(v, list):
+            return [relax(t.element_type, x, how) for x in v]
+        return v
+
+    for _ in range(budget // 2):
+        td = _gen_type(rng, composite_only=True)
+        if _has_float(td):
+            continue
+        try:
+            t = _mk_any_type(td)
+            v = _gen_value(rng, t)
+            how = rng.randrange(6)
+            stats["relaxed_form_checks"] += 1
+            explicit = serialize(t, v)
+            n1 = _serdes._normalize_relaxed_value(t, v)
+            if not _same_value(n1, v):
+                bad("normalize-explicit-form-unchanged", "normalisation changes an explicit value", {"type": td, "value": repr(v)})
+            rv = relax(t, v, how)
+            n2 = _serdes._normalize_relaxed_value(t, rv)
+            if not _same_value(_serdes._normalize_relaxed_value(t, n2), n2):
+                bad("normalize-idempotent", "normalisation is not idempotent", {"type": td, "value": repr(rv)})
+            if serialize(t, rv, relaxed=True) != explicit:
+                bad("relaxed-same-bytes", "a relaxed form does not encode like the explicit form", {"type": td, "value": repr(rv)})
+            inner = t.inner_type if isinstance(t, S.DelimitedType) else t
+            if isinstance(inner, S.StructureType):
+                fs = inner.fields_except_padding
+                if len(fs) != 1:
+                    try:
+                        serialize(t, [0] * (len(fs) + 1), relaxed=True)
+                        bad("too-many-positional", "too many positional values accepted", {"type": td})
+                    except ValueError:
+                        pass
+                    except _serdes.SerDesError:
+                        pass
+                if isinstance(v, dict) and v:
+                    k = sorted(v)[rng.randrange(len(v))]
+                    ft = [f.data_type for f in fs if f.name == k][0]
+                    w = dict(v)
+                    w[k] = NATIVE_DEFAULT(ft)
+                    omitted = {kk: vv for kk, vv in v.items() if kk != k}
+                    if serialize(t, omitted) != serialize(t, w):
+                        bad("omitted-field-default", "an omitted field does not encode like its default", {"type": td, "field": k})
+        except _Slow:
+            raise
+        except Exception as e:  # noqa
+            bad("relaxed-forms", "%s: %s" % (type(e).__name__, e), {"type": td})
     # delimited siblings with payloads of different length under one writer (a later payload shorter than an earlier
     # one): a reader with an appended field must see zeros after the shorter payload, never bytes of an earlier sibling
     stats["sibling_payload_checks"] = 0
@@ -1946,7 +2115,63 @@ def _bit_op_table(eng, tier, seed):
             "seeded sample (2000) for masks / shifts / to_bytes on integers up to 2**70", "violations": viol[:5]}
 
 
-EXTRA_CHECKS = [_bounded_codec, _bit_op_table]
+def _no_hidden_state(eng, tier, seed):
+    """Effect obligations (decided on the AST, complete for what they state): every codec function of _serdes.py is a
+    function of its arguments only - its `def` carries no decorator (a memoising / wrapping decorator such as
+    functools.lru_cache would make results depend on earlier calls and on `==` of the arguments instead of the argument
+    objects), it has no `global` / `nonlocal` statement, it reads no module-level name bound to a mutable value, and it
+    stores no attribute on a module-level function / class (function attributes used as caches)."""
+    import ast
+
+    mod = eng.repo.modules.get("pydsdl._serdes")
+    obs = []
+    if mod is None:
+        return {"check": "effects(no hidden state)", "name": "no hidden state", "obligations": [
+            {"name": "_serdes/effect#module-found", "ok": False, "function": "pydsdl._serdes", "detail": "module not found"}]}
+    immutable_ok = (ast.Constant,)
+
+    def is_immutable_binding(node):
+        if isinstance(node, immutable_ok):
+            return True
+        if isinstance(node, ast.Call) and isinstance(node.func, ast.Name) and node.func.id == "object" and not node.args:
+            return True  # a sentinel
+        if isinstance(node, (ast.BinOp, ast.Subscript, ast.Name, ast.Attribute)):
+            return all(isinstance(x, (ast.BinOp, ast.Subscript, ast.Name, ast.Attribute, ast.BitOr, ast.Load, ast.Constant,
+                                      ast.Tuple, ast.Ellipsis.__class__)) or isinstance(x, ast.expr_context)
+                       for x in ast.walk(node))  # a typing alias such as  bool | int | dict[str, typing.Any]
+        return False
+
+    wanted = [q for q in sorted(eng.repo.functions) if q.startswith("pydsdl._serdes.") and "_test" not in q]
+    for q in wanted:
+        fi = eng.repo.functions[q]
+        if fi.outer is not None or not isinstance(fi.node, (ast.FunctionDef,)):
+            continue
+        short = q.replace("pydsdl.", "")
+        allowed = {"property"} if fi.cls is not None else set()
+        extra = [d for d in fi.decorators if d not in allowed]
+        obs.append({"name": "%s/effect#no-decorator" % short, "ok": not extra, "function": q,
+                    "detail": "decorated with %s" % extra if extra else ""})
+        bad = []
+        local = {a.arg for a in fi.node.args.args + fi.node.args.kwonlyargs + fi.node.args.posonlyargs}
+        for node in ast.walk(fi.node):
+            if isinstance(node, ast.Name) and isinstance(node.ctx, ast.Store):
+                local.add(node.id)
+        for node in ast.walk(fi.node):
+            if isinstance(node, (ast.Global, ast.Nonlocal)):
+                bad.append("%s statement" % type(node).__name__.lower())
+            if isinstance(node, ast.Name) and isinstance(node.ctx, ast.Load) and node.id not in local \
+                    and node.id in mod.assigns and not is_immutable_binding(mod.assigns[node.id]):
+                bad.append("reads module-level `%s` bound to a mutable value" % node.id)
+            if isinstance(node, ast.Attribute) and isinstance(node.ctx, ast.Store) and isinstance(node.value, ast.Name) \
+                    and node.value.id not in local and (node.value.id in mod.functions or node.value.id in mod.classes
+                                                        or node.value.id in mod.assigns):
+                bad.append("stores an attribute on module-level `%s`" % node.value.id)
+        obs.append({"name": "%s/effect#no-module-state" % short, "ok": not bad, "function": q, "detail": "; ".join(bad)})
+    return {"check": "effects(no hidden state)", "name": "codec functions are functions of their arguments (AST effects)",
+            "obligations": obs}
+
+
+EXTRA_CHECKS = [_bounded_codec, _bit_op_table, _no_hidden_state]
 
 NOT_COVERED = [
     "_serialize_array / _serialize_composite / serialize / _default_value / _normalize_relaxed_value (dict handling of the "
